@@ -20,22 +20,90 @@ Local Open Scope N_scope.
 
 (** * the reference index as a multimap *)
 
-Definition decl_cells (st : state) (d : N) : list N :=
-  map fst (filter (fun r => d_pos (snd r) =? d) (st_refs st)).
+(** the cells of the declaration at [d] (FileReference::decl_references): ranges of the referring tokens, in order *)
+Definition decl_cell_ranges (st : state) (d : N) : list (N * N) :=
+  map snd (filter (fun c => fst c =? d) (st_cells st)).
+
+Definition decl_cells (st : state) (d : N) : list N := map fst (decl_cell_ranges st d).
 
 Definition impl_references (st : state) (d : N) : list N := d :: decl_cells st d.
 
-Fixpoint nodupN (l : list N) : list N :=
+Definition range_eqb (a b : N * N) : bool := (fst a =? fst b) && (snd a =? snd b).
+
+Fixpoint nodupR (l : list (N * N)) : list (N * N) :=
   match l with
   | [] => []
-  | a :: r => if existsb (N.eqb a) r then nodupN r else a :: nodupN r
+  | a :: r => if existsb (range_eqb a) r then nodupR r else a :: nodupR r
   end.
 
 (** an edit: start, end, new name *)
 Definition edit := (N * N * name)%type.
 
+(** rename_decl_references, local branch: a map from ranges to the new name holding the range of every cell and
+    the range of the declaration ([x] is the declaration's name) *)
 Definition impl_rename (st : state) (d : N) (x new : name) : list edit :=
-  map (fun q => (q, q + nlen x, new)) (nodupN (d :: decl_cells st d)).
+  map (fun r => (fst r, snd r, new)) (nodupR ((d, d + nlen x) :: decl_cell_ranges st d)).
+
+(** * all name tokens (declarations and uses) of a construct in source order, with their names *)
+Fixpoint names_toks (xs : list name) (o : N) : list (N * name) :=
+  match xs with [] => [] | x :: t => (o, x) :: names_toks t (o + nlen x + 2) end.
+
+Fixpoint toks_expr (e : expr) (o : N) : list (N * name) :=
+  match e with
+  | ENum _ => []
+  | EName x => [(o, x)]
+  | EIdx e1 _ => toks_expr e1 (o + paren e1)
+  | ECall f args => toks_expr f (o + paren f) ++ toks_exprs args (o + paren f + len_expr f + paren f + 1)
+  | EBin a b => toks_expr a o ++ toks_expr b (o + len_expr a + 3)
+  | EFun ps b => names_toks ps (o + 8 + 1) ++ toks_block b (o + 8 + (1 + len_names ps + 1) + 1)
+  | EStr _ => []
+  | ETable es => toks_exprs es (o + 1)
+  | EMeth e1 m args =>
+      toks_expr e1 (o + paren e1) ++ toks_exprs args (o + paren e1 + len_expr e1 + paren e1 + 1 + nlen m + 1)
+  end
+with toks_exprs (es : exprs) (o : N) : list (N * name) :=
+  match es with
+  | ENil => []
+  | ECons e r => toks_expr e o ++ toks_exprs r (o + len_expr e + 2)
+  end
+with toks_stat (s : stat) (o : N) : list (N * name) :=
+  match s with
+  | SLocal xs es => names_toks xs (o + 6) ++ toks_exprs es (o + 6 + len_names xs + 3)
+  | SAssign vs es => toks_exprs vs o ++ toks_exprs es (o + len_exprs vs + 3)
+  | SCall f args => toks_expr f (o + paren f) ++ toks_exprs args (o + paren f + len_expr f + paren f + 1)
+  | SLocalFun f ps b =>
+      (o + 15, f) :: names_toks ps (o + 15 + nlen f + 1) ++ toks_block b (o + 15 + nlen f + (1 + len_names ps + 1) + 1)
+  | SFun root fields meth ps b =>
+      let po := o + 9 + nlen root + len_fields fields + len_meth meth in
+      (o + 9, root) :: names_toks ps (po + 1) ++ toks_block b (po + (1 + len_names ps + 1) + 1)
+  | SDo b => toks_block b (o + 2 + 1)
+  | SWhile c b => toks_expr c (o + 6) ++ toks_block b (o + 6 + len_expr c + 3 + 1)
+  | SRepeat b c => toks_block b (o + 6 + 1) ++ toks_expr c (o + 6 + (1 + len_block b) + 6)
+  | SIf c b els =>
+      toks_expr c (o + 3) ++ toks_block b (o + 3 + len_expr c + 5 + 1)
+      ++ toks_elifs els (o + 3 + len_expr c + 5 + (1 + len_block b))
+  | SFor x es b =>
+      (o + 4, x) :: toks_exprs es (o + 4 + nlen x + 3) ++ toks_block b (o + 4 + nlen x + 3 + len_exprs es + 3 + 1)
+  | SForIn xs es b =>
+      names_toks xs (o + 4) ++ toks_exprs es (o + 4 + len_names xs + 4)
+      ++ toks_block b (o + 4 + len_names xs + 4 + len_exprs es + 3 + 1)
+  | SLabel _ | SGoto _ => []
+  | SLocalAttr x _ es => names_toks [x] (o + 6) ++ toks_exprs es (o + 6 + nlen x + 8 + 3)
+  end
+with toks_elifs (els : elifs) (o : N) : list (N * name) :=
+  match els with
+  | ElEnd => []
+  | ElElse b => toks_block b (o + 4 + 1)
+  | ElIf c b r =>
+      toks_expr c (o + 7) ++ toks_block b (o + 7 + len_expr c + 5 + 1)
+      ++ toks_elifs r (o + 7 + len_expr c + 5 + (1 + len_block b))
+  end
+with toks_block (b : block) (o : N) : list (N * name) :=
+  match b with
+  | BNil => []
+  | BRet es => toks_exprs es (o + 7)
+  | BCons s r => toks_stat s o ++ toks_block r (o + len_stat s + 1)
+  end.
 
 (** * which ordinals are implicit selfs (declarations without a token: they cannot be renamed) *)
 Definition falses (xs : list name) : list bool := map (fun _ => false) xs.
@@ -47,6 +115,9 @@ Fixpoint dk_expr (e : expr) : list bool :=
   | ECall f args => dk_expr f ++ dk_exprs args
   | EBin a b => dk_expr a ++ dk_expr b
   | EFun ps b => falses ps ++ dk_block b
+  | EStr _ => []
+  | ETable es => dk_exprs es
+  | EMeth e1 _ args => dk_expr e1 ++ dk_exprs args
   end
 with dk_exprs (es : exprs) : list bool :=
   match es with ENil => [] | ECons e t => dk_expr e ++ dk_exprs t end
@@ -63,6 +134,8 @@ with dk_stat (s : stat) : list bool :=
   | SIf c b els => dk_expr c ++ dk_block b ++ dk_elifs els
   | SFor x es b => false :: dk_exprs es ++ dk_block b
   | SForIn xs es b => falses xs ++ dk_exprs es ++ dk_block b
+  | SLabel _ | SGoto _ => []
+  | SLocalAttr x _ es => falses [x] ++ dk_exprs es
   end
 with dk_elifs (els : elifs) : list bool :=
   match els with
@@ -110,6 +183,7 @@ Definition env_after (r : oenv) (s : stat) (k : nat) : oenv :=
   match s with
   | SLocal xs _ => obind xs k r
   | SLocalFun f _ _ => (f, k) :: r
+  | SLocalAttr x _ _ => obind [x] k r
   | _ => r
   end.
 
@@ -133,6 +207,9 @@ Fixpoint ord_expr (r : oenv) (e : expr) (k : nat) : list (option nat) :=
   | ECall f args => ord_expr r f k ++ ord_exprs r args (k + cnt_expr f)%nat
   | EBin a b => ord_expr r a k ++ ord_expr r b (k + cnt_expr a)%nat
   | EFun ps b => ord_block (obind ps k r) b (k + olen ps)%nat
+  | EStr _ => []
+  | ETable es => ord_exprs r es k
+  | EMeth e1 _ args => ord_expr r e1 k ++ ord_exprs r args (k + cnt_expr e1)%nat
   end
 with ord_exprs (r : oenv) (es : exprs) (k : nat) : list (option nat) :=
   match es with
@@ -156,6 +233,8 @@ with ord_stat (r : oenv) (s : stat) (k : nat) : list (option nat) :=
   | SFor x es b => ord_exprs r es (S k) ++ ord_block ((x, k) :: r) b (S k + cnt_exprs es)%nat
   | SForIn xs es b =>
       ord_exprs r es (k + olen xs)%nat ++ ord_block (obind xs k r) b (k + olen xs + cnt_exprs es)%nat
+  | SLabel _ | SGoto _ => []
+  | SLocalAttr x _ es => ord_exprs r es (k + olen [x])%nat
   end
 with ord_elifs (r : oenv) (els : elifs) (k : nat) : list (option nat) :=
   match els with
@@ -196,6 +275,9 @@ Fixpoint al_expr (d : nat) (y : name) (r : oenv) (e : expr) (k : nat) : expr :=
   | ECall f args => ECall (al_expr d y r f k) (al_exprs d y r args (k + cnt_expr f)%nat)
   | EBin a b => EBin (al_expr d y r a k) (al_expr d y r b (k + cnt_expr a)%nat)
   | EFun ps b => EFun (al_names d y ps k) (al_block d y (obind ps k r) b (k + olen ps)%nat)
+  | EStr n => EStr n
+  | ETable es => ETable (al_exprs d y r es k)
+  | EMeth e1 m args => EMeth (al_expr d y r e1 k) m (al_exprs d y r args (k + cnt_expr e1)%nat)
   end
 with al_exprs (d : nat) (y : name) (r : oenv) (es : exprs) (k : nat) : exprs :=
   match es with
@@ -225,6 +307,9 @@ with al_stat (d : nat) (y : name) (r : oenv) (s : stat) (k : nat) : stat :=
   | SForIn xs es b =>
       SForIn (al_names d y xs k) (al_exprs d y r es (k + olen xs)%nat)
              (al_block d y (obind xs k r) b (k + olen xs + cnt_exprs es)%nat)
+  | SLabel l => SLabel l
+  | SGoto l => SGoto l
+  | SLocalAttr x cl es => SLocalAttr (if Nat.eqb k d then y else x) cl (al_exprs d y r es (k + olen [x])%nat)
   end
 with al_elifs (d : nat) (y : name) (r : oenv) (els : elifs) (k : nat) : elifs :=
   match els with
@@ -252,6 +337,9 @@ Fixpoint names_expr (e : expr) : list name :=
   | ECall f args => names_expr f ++ names_exprs args
   | EBin a b => names_expr a ++ names_expr b
   | EFun ps b => ps ++ names_block b
+  | EStr _ => []
+  | ETable es => names_exprs es
+  | EMeth e1 _ args => names_expr e1 ++ names_exprs args
   end
 with names_exprs (es : exprs) : list name :=
   match es with ENil => [] | ECons e t => names_expr e ++ names_exprs t end
@@ -268,6 +356,8 @@ with names_stat (s : stat) : list name :=
   | SIf c b els => names_expr c ++ names_block b ++ names_elifs els
   | SFor x es b => x :: names_exprs es ++ names_block b
   | SForIn xs es b => xs ++ names_exprs es ++ names_block b
+  | SLabel _ | SGoto _ => []
+  | SLocalAttr x _ es => [x] ++ names_exprs es
   end
 with names_elifs (els : elifs) : list name :=
   match els with
@@ -296,6 +386,10 @@ Fixpoint dpos_expr (e : expr) (o : N) : list N :=
   | ECall f args => dpos_expr f (o + paren f) ++ dpos_exprs args (o + paren f + len_expr f + paren f + 1)
   | EBin a b => dpos_expr a o ++ dpos_expr b (o + len_expr a + 3)
   | EFun ps b => names_pos ps (o + 8 + 1) ++ dpos_block b (o + 8 + (1 + len_names ps + 1) + 1)
+  | EStr _ => []
+  | ETable es => dpos_exprs es (o + 1)
+  | EMeth e1 m args =>
+      dpos_expr e1 (o + paren e1) ++ dpos_exprs args (o + paren e1 + len_expr e1 + paren e1 + 1 + nlen m + 1)
   end
 with dpos_exprs (es : exprs) (o : N) : list N :=
   match es with ENil => [] | ECons e t => dpos_expr e o ++ dpos_exprs t (o + len_expr e + 2) end
@@ -323,6 +417,8 @@ with dpos_stat (s : stat) (o : N) : list N :=
   | SForIn xs es b =>
       names_pos xs (o + 4) ++ dpos_exprs es (o + 4 + len_names xs + 4)
       ++ dpos_block b (o + 4 + len_names xs + 4 + len_exprs es + 3 + 1)
+  | SLabel _ | SGoto _ => []
+  | SLocalAttr x _ es => names_pos [x] (o + 6) ++ dpos_exprs es (o + 6 + nlen x + 8 + 3)
   end
 with dpos_elifs (els : elifs) (o : N) : list N :=
   match els with
